@@ -213,3 +213,22 @@ Proof.
   destruct (forget_never_exits_with_extra_clone c s Hx R (forgotten_stays _ _ R Hj)) as [_ [Hd Hn]].
   split; auto. intros H. rewrite H in Hd. discriminate.
 Qed.
+
+(* Requests that are only completed by the thread's end (woken at WExit): if the request was sent before the
+   shutdown flag was stored and the shutdown drain was complete, the barrier still holds — everything appended
+   before the request is written (or was displaced) and the stream was flushed before it was dropped. *)
+Theorem barrier_at_exit : forall c s w n m,
+  0 < cap c -> reachable c s -> pc (wr s) = WExited -> sdhit (gh s) = false ->
+  In (w, n) (freq (gh s)) -> sdmark (gh s) = Some m -> n <= m ->
+  (exists pre b, stream_events (out (gh s)) = pre ++ [EFlush b; EDropStream]) /\
+  forall e, In e (firstn n (pushed (gh s))) ->
+            In e (nexts (out (gh s))) \/ In e (displaced (removed (gh s))).
+Proof.
+  intros c s w n m Hc R Hpc Hh Hreq Hm Hle.
+  pose proof (sd_reachable _ _ R) as SI. pose proof (hist_reachable _ _ R) as HI.
+  split; [apply (si_dropped _ _ SI); rewrite Hpc; reflexivity|].
+  destruct (si_drained _ _ SI) as [Ha _]; [rewrite Hpc; reflexivity|exact Hh|].
+  specialize (Ha m Hm).
+  apply (removed_prefix_delivered c); auto; [|lia].
+  destruct (hi_infl _ _ HI) as [H|H]; auto. congruence.
+Qed.
